@@ -269,4 +269,75 @@ def x_vaa_codec():
     return out, info
 
 
-EXTRACTORS = [("vaa_codec", x_vaa_codec)]
+def x_vaa_verify():
+    """(*VAA).VerifySignatures translated statement by statement: the guards in source order, the symbolic values of last_index and
+    signing_addresses at each point; an indexing of `addresses` that is not preceded by the bounds test would be a panic and is refused"""
+    src = rd("node/pkg/vaa/structs.go")
+    c = Cur(_func(src, r'^func \(v \*VAA\) VerifySignatures\(addresses \[\]common\.Address\) bool \{'), "VerifySignatures")
+    pre = None
+    if c.eat(r'if len\(addresses\) < len\(v\.Signatures\) \{ return false \}'):
+        pre = "if (length addrs <? length (sigs v))%nat then false else"
+    c.need(r'h := v\.SigningMsg\(\)', "`h := v.SigningMsg()`")
+    c.need(r'last_index := -1', "`last_index := -1`")
+    c.need(r'signing_addresses := \[\]common\.Address\{\}', "`signing_addresses := []common.Address{}`")
+    c.need(r'for _, sig := range v\.Signatures \{', "the loop over the signatures")
+    last, seen = "last", "seen"
+    lines, closes, have_bounds, have_addr, guards = [], 0, False, False, []
+    while True:
+        if c.eat(r'if int\(sig\.Index\) >= len\(addresses\) \{ return false \}'):
+            lines.append("    if Z.of_nat (length addrs) <=? s_idx s then false else")
+            have_bounds = True
+            guards.append("bounds")
+            continue
+        if c.eat(r'if int\(sig\.Index\) <= last_index \{ return false \}'):
+            lines.append("    if s_idx s <=? %s then false else" % last)
+            guards.append("order")
+            continue
+        if c.eat(r'last_index = int\(sig\.Index\)'):
+            last = "s_idx s"
+            continue
+        if c.eat(r'pubKey, err := crypto\.Ecrecover\(h\.Bytes\(\), sig\.Signature\[:\]\) if err != nil \{ return false \}'):
+            c.need(r'addr := common\.BytesToAddress\(crypto\.Keccak256\(pubKey\[1:\]\)\[12:\]\)', "the address derivation")
+            lines.append("    match recover h (s_data s) with")
+            lines.append("    | None => false")
+            lines.append("    | Some a =>")
+            closes += 1
+            have_addr = True
+            guards.append("recover")
+            continue
+        if c.eat(r'if addr != addresses\[sig\.Index\] \{ return false \}'):
+            if not have_bounds:
+                raise Broken("VerifySignatures: addresses[sig.Index] is read without the preceding bounds test (index out of range panics)")
+            if not have_addr:
+                raise Broken("VerifySignatures: addr used before it is recovered")
+            lines.append("      match nth_error addrs (Z.to_nat (s_idx s)) with")
+            lines.append("      | None => false")
+            lines.append("      | Some a' =>")
+            lines.append("        if negb (bytes_eqb a a') then false else")
+            closes += 1
+            guards.append("position")
+            continue
+        if c.eat(r'for _, (\w+) := range signing_addresses \{ if \1 == addr \{ return false \} \}'):
+            lines.append("        if existsb (bytes_eqb a) %s then false else" % seen)
+            guards.append("duplicate")
+            continue
+        if c.eat(r'signing_addresses = append\(signing_addresses, addr\)'):
+            seen = "%s ++ [a]" % seen
+            continue
+        break
+    c.need(r'\}', "end of the loop")
+    c.need(r'return true', "`return true`")
+    c.done()
+    lines.append("        go_verify_loop h addrs (%s) (%s) t" % (last, seen))
+    lines.append("      " + " ".join(["end"] * closes))
+    out = ("(* GENERATED by gen/x_vaacodec.py from VAA.VerifySignatures, statement by statement; [recover h sig] stands for\n"
+           "   crypto.Ecrecover + Keccak256(pubKey[1:])[12:] (None = Ecrecover returned an error) *)\n"
+           "Section GoVerify.\nVariable recover : bytes -> bytes -> option bytes.\nVariable keccak : bytes -> bytes.\n\n"
+           "Fixpoint go_verify_loop (h : bytes) (addrs : list bytes) (last : Z) (seen : list bytes) (ss : list sig) : bool :=\n"
+           "  match ss with\n  | [] => true\n  | s :: t =>\n%s\n  end.\n\n"
+           "Definition go_verify_sigs (v : vaa) (addrs : list bytes) : bool :=\n  %s\n  go_verify_loop (digest keccak v) addrs (-1) [] (sigs v).\nEnd GoVerify.\n"
+           % ("\n".join(lines), pre or ""))
+    return out, {"guards_in_source_order": guards, "early_length_test": pre is not None}
+
+
+EXTRACTORS = [("vaa_codec", x_vaa_codec), ("vaa_verify", x_vaa_verify)]
